@@ -114,26 +114,64 @@ func atomsOf(f Formula, m map[string]int) {
 	}
 }
 
-// satisfiable decides by exhaustive enumeration (bounded) whether some
-// valuation satisfies all formulas. If the space exceeds the bound the answer
-// is "true" (feasible), which is the conservative direction for path pruning.
+// satisfiable decides whether some valuation satisfies all formulas. Top-level
+// literals are intersected first (unit propagation over finite domains); the
+// remaining compound formulas are decided by exhaustive enumeration of their
+// atoms. If that space still exceeds the bound the answer is "true"
+// (feasible), the conservative direction for path pruning.
 func satisfiable(fs []Formula) bool {
-	atoms := map[string]int{}
+	mask := map[string]uint8{}
+	dom := map[string]int{}
+	var compound []Formula
+	var flatten func(f Formula) bool
+	flatten = func(f Formula) bool {
+		switch x := f.(type) {
+		case FConst:
+			return bool(x)
+		case *FLit:
+			m, ok := mask[x.Atom]
+			if !ok {
+				m = uint8(1<<x.Dom) - 1
+			}
+			m &= x.Mask
+			mask[x.Atom] = m
+			dom[x.Atom] = x.Dom
+			return m != 0
+		case *FAnd:
+			return flatten(x.L) && flatten(x.R)
+		default:
+			compound = append(compound, f)
+			return true
+		}
+	}
 	for _, f := range fs {
-		if c, ok := f.(FConst); ok && !bool(c) {
+		if !flatten(f) {
 			return false
 		}
-		atomsOf(f, atoms)
 	}
-	if len(atoms) == 0 {
+	if len(compound) == 0 {
 		return true
+	}
+	atoms := map[string]int{}
+	for _, f := range compound {
+		atomsOf(f, atoms)
 	}
 	names := make([]string, 0, len(atoms))
 	space := 1
 	for a, d := range atoms {
 		names = append(names, a)
-		space *= d
-		if space > 1<<18 {
+		n := 0
+		if m, ok := mask[a]; ok {
+			for v := 0; v < d; v++ {
+				if m&(1<<uint(v)) != 0 {
+					n++
+				}
+			}
+		} else {
+			n = d
+		}
+		space *= n
+		if space > 1<<20 {
 			return true
 		}
 	}
@@ -142,15 +180,19 @@ func satisfiable(fs []Formula) bool {
 	var rec func(i int) bool
 	rec = func(i int) bool {
 		if i == len(names) {
-			for _, f := range fs {
+			for _, f := range compound {
 				if !evalF(f, val) {
 					return false
 				}
 			}
 			return true
 		}
-		for v := 0; v < atoms[names[i]]; v++ {
-			val[names[i]] = v
+		a := names[i]
+		for v := 0; v < atoms[a]; v++ {
+			if m, ok := mask[a]; ok && m&(1<<uint(v)) == 0 {
+				continue
+			}
+			val[a] = v
 			if rec(i + 1) {
 				return true
 			}
@@ -198,6 +240,7 @@ type condXlat struct {
 	pure    func(call *ast.CallExpr) bool
 	defs    map[types.Object]string // current defining term of locals assigned from calls
 	callOrd map[*ast.CallExpr]string
+	pathMode bool // translating a condition on a path: locals assigned from calls are named by the path's defs
 }
 
 func (x *condXlat) v(o types.Object) int {
@@ -219,6 +262,16 @@ func (x *condXlat) termDepth(e ast.Expr, depth int) (string, bool) {
 	if depth > 8 {
 		return types.ExprString(e), false
 	}
+	if id, ok := e.(*ast.Ident); ok {
+		if cst, ok := x.info.ObjectOf(id).(*types.Const); ok && isEnumType(cst.Type()) {
+			return "const:" + cst.Name(), true
+		}
+	}
+	if se, ok := e.(*ast.SelectorExpr); ok {
+		if cst, ok := x.info.Uses[se.Sel].(*types.Const); ok && isEnumType(cst.Type()) {
+			return "const:" + cst.Name(), true
+		}
+	}
 	if tv, ok := x.info.Types[e]; ok && tv.Value != nil {
 		return "const:" + tv.Value.ExactString(), true
 	}
@@ -238,6 +291,11 @@ func (x *condXlat) termDepth(e ast.Expr, depth int) (string, bool) {
 				if def := soleDefinition(x.info, x.fd, o); def != nil && !isParamOf(x.info, x.fd, o) {
 					if s, ok := x.termDepth(def, depth+1); ok {
 						return s, true
+					}
+				}
+				if !x.pathMode {
+					if call, i := soleTupleDef(x.info, x.fd, o); call != nil {
+						return fmt.Sprintf("%s.%d", x.callTerm(call, depth+1), i), true
 					}
 				}
 			}
@@ -319,6 +377,59 @@ func (x *condXlat) termDepth(e ast.Expr, depth int) (string, bool) {
 		return "const:" + t.Value, true
 	}
 	return types.ExprString(e), false
+}
+
+// isEnumType: a named integer/string type (protobuf enums, constants.OpType …).
+func isEnumType(t types.Type) bool {
+	if _, ok := t.(*types.Named); !ok {
+		return false
+	}
+	_, basic := t.Underlying().(*types.Basic)
+	return basic
+}
+
+// callTerm renders a call canonically: <receiver term>.<method>(<argument terms>).
+func (x *condXlat) callTerm(call *ast.CallExpr, depth int) string {
+	var as []string
+	for _, a := range call.Args {
+		s, _ := x.termDepth(a, depth+1)
+		as = append(as, s)
+	}
+	fn := types.ExprString(call.Fun)
+	if se, ok := ast.Unparen(call.Fun).(*ast.SelectorExpr); ok {
+		if _, isPkg := x.info.Uses[identOf(se.X)].(*types.PkgName); !isPkg {
+			b, _ := x.termDepth(se.X, depth+1)
+			fn = b + "." + se.Sel.Name
+		}
+	}
+	return fn + "(" + strings.Join(as, ",") + ")"
+}
+
+// soleTupleDef: local v is assigned exactly once, as the i-th result of a call.
+func soleTupleDef(info *types.Info, fd *ast.FuncDecl, v *types.Var) (*ast.CallExpr, int) {
+	var call *ast.CallExpr
+	idx, n := -1, 0
+	ast.Inspect(fd.Body, func(m ast.Node) bool {
+		as, ok := m.(*ast.AssignStmt)
+		if !ok {
+			return true
+		}
+		for i, l := range as.Lhs {
+			if id, ok := l.(*ast.Ident); ok && info.ObjectOf(id) == v {
+				n++
+				if len(as.Rhs) == 1 && len(as.Lhs) > 1 {
+					if c, ok := ast.Unparen(as.Rhs[0]).(*ast.CallExpr); ok {
+						call, idx = c, i
+					}
+				}
+			}
+		}
+		return true
+	})
+	if n == 1 && call != nil {
+		return call, idx
+	}
+	return nil, -1
 }
 
 func identOf(e ast.Expr) *ast.Ident {
@@ -462,7 +573,7 @@ func (x *condXlat) compare(t *ast.BinaryExpr) Formula {
 		sa, oka := x.term(t.X)
 		sb, okb := x.term(t.Y)
 		basic, isBasic := tx.Type.Underlying().(*types.Basic)
-		ordered := isBasic && basic.Info()&(types.IsInteger|types.IsFloat) != 0
+		ordered := isBasic && basic.Info()&(types.IsInteger|types.IsFloat) != 0 && !isEnumType(tx.Type)
 		if !ordered {
 			if !oka || !okb {
 				*x.uniq++
